@@ -28,7 +28,10 @@ RULE = ('type-directed: a random JSON-like target; a spec tree of depth <= 3 (qu
         '{str path, T, dict (literal and computed keys, dict/OrderedDict), list, tuple, Pipe, callable, type, Val, Spec, '
         'Coalesce(+default/default_factory/skip/skip_exc), Call, Invoke (constants/specs/star), Ref}; chain steps are '
         'derived from the real result of the previous step so most chains resolve; SKIP / STOP are produced at every '
-        'position by Val(SKIP/STOP) and by skip_if_odd / stop_if_neg callables; ~12% of accesses are invalid. Every '
+        'position by Val(SKIP/STOP) and by skip_if_odd / stop_if_neg / {stop,skip}_if_{truthy,falsy} callables; 10% of '
+        'cases are nested chains: a tuple / Pipe of str paths and plain callables placed directly as a step of a '
+        'tuple / Pipe (0-2 steps before it, 1-3 after it) with a callable that returns SKIP / STOP for the value it '
+        'receives at a random position of the inner chain; ~12% of accesses are invalid. Every '
         'callable is an instrumented catalogue function with a unique name, so the ordered call log is observed. '
         'non-trivial = spec has >= 3 nodes; distinct = distinct (target, spec)')
 TRUSTED = ['Python primitives (==, truthiness, hashing, iteration, int(), the catalogue callables) are parameters of the '
@@ -40,10 +43,15 @@ ASSUMPTIONS = ['Inspect is not modelled (I/O)', 'T-expressions inside specs carr
 def generate(rng, tier, scale, **focus):
     n = (1200 if tier == 'quick' else 30000) * scale
     for i in range(n):
-        g = Gen(rng, {'extra': ['ref']})
+        g = Gen(rng, {'extra': ['ref', 'nestchain']})
         t = g.target()
         depth = rng.choice([1, 2, 2, 3]) if tier == 'quick' else rng.choice([2, 3, 3, 4])
-        spec = g.spec(t, depth)
+        if rng.random() < 0.1:
+            # a chain of plain steps (str paths, plain callables) nested directly in a tuple / Pipe, a
+            # SKIP / STOP-returning callable at a random position of the inner chain, outer steps after it
+            spec = g.s_nestchain(t, rng.choice([0, 1]))
+        else:
+            spec = g.spec(t, depth)
         yield {'spec': spec, 'target': ic.enc(t), 'scope': []}
 
 
